@@ -104,3 +104,8 @@ def run(rep, tier):
     from .common import rule_save_order
     rep.rule("B2-save-order", "in Textgrid.save the text is computed (and can raise) before the destination is opened for writing (shared with C13)")
     rule_save_order(rep, ["Textgrid.save"])
+    # 'boundaries unchanged': every time is written exactly
+    from . import textrules as R
+    rep.rule("C-exact / C-numslot", "boundaries are written exactly: repr or the compared integer (tolerance <= 1e-14), every numeric slot through numToStr (shared with C01/C02)")
+    R.rule_exact_formatter(rep)
+    R.rule_numeric_slots(rep)
